@@ -39,7 +39,7 @@ def text_of(msg):
     return dget(msg, 'message') if dhas(msg, 'message') else None
 
 
-@contract('plumpy.processes.Process.message_receive', props=['C16'])
+@contract('plumpy.processes.Process.message_receive', props=['C16', 'C02', 'C04'])
 def message_receive(self, _comm, msg):
     """an RPC message is answered by exactly the direct call its intent names, with the text the message carries; status is
     answered at once with the four status entries; any other intent is an error and does nothing"""
@@ -64,7 +64,7 @@ def message_receive(self, _comm, msg):
     replay('raises_only_declared', 'remote_equals_direct')
 
 
-@contract('plumpy.processes.Process.broadcast_receive', props=['C16'])
+@contract('plumpy.processes.Process.broadcast_receive', props=['C16', 'C02', 'C04'])
 def broadcast_receive(self, _comm, msg, sender, subject, correlation_id):
     """a broadcast is handled like the RPC of the same name; any other subject is ignored"""
     requires(isinstance(self, Process) and (msg is None or is_dict(msg)) and is_str(subject))
